@@ -122,6 +122,22 @@ impl PutQuery {
 
     /// Check if the query is either successfully done, or terminated with an error.
     pub fn check(&self, socket: &KrpcSocket) -> Result<bool, PutError> {
+        // A majority of the nodes rejecting a mutable item with 301/302 decides the outcome as
+        // soon as it is reached, also when the reply completing that majority is the last one
+        // outstanding (otherwise the result would depend on the arrival order of the replies).
+        if let Some(most_common_error) = self.majority_nodes_rejected_put_mutable() {
+            let target = self.target;
+
+            debug!(
+                ?target,
+                ?most_common_error,
+                nodes_count = self.inflight_requests.len(),
+                "PutQuery for MutableItem was rejected by most nodes with 3xx code."
+            );
+
+            return Err(most_common_error)?;
+        }
+
         // And all queries got responses or timedout
         if self.is_done(socket) {
             let target = self.target;
@@ -144,17 +160,6 @@ impl PutQuery {
             debug!(?target, stored_at = ?self.stored_at, "PutQuery Done successfully");
 
             return Ok(true);
-        } else if let Some(most_common_error) = self.majority_nodes_rejected_put_mutable() {
-            let target = self.target;
-
-            debug!(
-                ?target,
-                ?most_common_error,
-                nodes_count = self.inflight_requests.len(),
-                "PutQuery for MutableItem was rejected by most nodes with 3xx code."
-            );
-
-            return Err(most_common_error)?;
         }
 
         Ok(false)
